@@ -199,19 +199,30 @@ def measured_set(w, where, obj, args, kwargs) -> List[Any]:
     return out
 
 
+def optional_measured(w, where, obj, args, kwargs) -> List[Any]:
+    """Under-specified case: Polarization.measure() on a polarization holding its own state documents only
+    'measures this state'; the library measures just the receiver there while every other route also measures
+    the envelope partner.  The contract accepts both (partner optional) instead of demanding more than is stated."""
+    if where == "self" and type(obj).__name__ == "Polarization" and obj.index is None and not kwargs.get("separate_measurement", False):
+        return partners(w, [obj])
+    return []
+
+
 class Measure(Contract):
     def __init__(self, where):
         self.where = where
 
     def before(self, w, old, obj, args, kwargs):
         ms = [x for x in measured_set(w, self.where, obj, args, kwargs)]
-        return {"measured": [w.name(x) for x in ms], "joint": safe_joint(w, old),
+        opt = [w.name(x) for x in optional_measured(w, self.where, obj, args, kwargs)]
+        return {"measured": [w.name(x) for x in ms if w.name(x) not in opt], "optional": opt, "joint": safe_joint(w, old),
                 "destructive": bool(kwargs.get("destructive", True)), "ndraws0": len(_STATE.get("recorder").draws) if _STATE.get("recorder") else 0}
 
     def ensure(self, w, old, new, ghost, obj, args, kwargs, result):
         cl = invariant_clauses(new)
         ms = [m for m in ghost["measured"] if m in old.live]
-        cl += frame_clauses(old, new, ms, single=False)
+        opt = [m for m in ghost["optional"] if m in old.live]
+        cl += frame_clauses(old, new, ms + opt, single=False)
         if ghost["joint"] is None:
             return cl
         rho, dims, names = ghost["joint"]
@@ -225,10 +236,12 @@ class Measure(Contract):
                 foreign.append(f"two keys for {nm}")
             res[nm] = int(v)
         # C05 / C18: exactly the specified subsystems are reported, each under its own object
-        cl.append(Clause("C05", "outcome-keys-are-exactly-the-specified-subsystems", sorted(res) == sorted(ms) and not foreign,
-                         f"reported {sorted(res)}, specified {sorted(ms)} {foreign}"))
-        cl.append(Clause("C18", "one-outcome-entry-per-specified-object", sorted(res) == sorted(ms) and not foreign,
-                         f"reported {sorted(res)}, specified {sorted(ms)} {foreign}"))
+        keys_ok = set(ms) <= set(res) <= set(ms) | set(opt) and not foreign
+        cl.append(Clause("C05", "outcome-keys-are-exactly-the-specified-subsystems", keys_ok,
+                         f"reported {sorted(res)}, specified {sorted(ms)} (optional {sorted(opt)}) {foreign}"))
+        cl.append(Clause("C18", "one-outcome-entry-per-specified-object", keys_ok,
+                         f"reported {sorted(res)}, specified {sorted(ms)} (optional {sorted(opt)}) {foreign}"))
+        ms = [m for m in ms + opt if m in res] + [m for m in ms if m not in res]
         # C04: every draw is the Born distribution of a not yet measured specified subsystem, conditioned on earlier outcomes
         todo = [m for m in ms if m in res]
         cond = rho
@@ -253,6 +266,12 @@ class Measure(Contract):
                     match = m
                     break
             if match is None:
+                # a repeated draw on an already measured subsystem is legal iff it is certain (p = delta at its outcome)
+                redo = [m for m in ms if m in res and m not in todo and dims[names.index(m)] == len(p)
+                        and 0 <= res[m] < len(p) and p[res[m]] > 1 - 1e-7 and d["chosen"] == res[m]
+                        and S.spec_born(cond, dims, names.index(m))[res[m]] > 1 - 1e-7]
+                if redo:
+                    continue
                 cl.append(Clause("C04", "draw-follows-the-born-rule", False,
                                  f"draw {k}: p={np.round(p, 6).tolist()} chosen={d['chosen']}; Born distributions of the unmeasured specified "
                                  f"subsystems: " + "; ".join(f"{m}:{np.round(b, 6).tolist()} (reported {res.get(m)})" for m, b in cands.items())))
